@@ -27,31 +27,30 @@ Section svc.
               (forall r, r ∈ roots -> r ∉ r_unavS s -> svc_behind r -> r ∈ r_svc s)
   }.
 
+  Lemma init_inbox_msgs_gen rs : forall acc ib,
+    (forall d l m, ib !! d = Some l -> m ∈ l -> d ∈ acc /\ exists k, m = MRequested k ARoot) ->
+    forall d l m,
+      foldl (fun ib r => push_inbox (push_inbox ib r (MRequested KB ARoot)) r (MRequested KS ARoot)) ib rs !! d = Some l ->
+      m ∈ l -> d ∈ acc ++ rs /\ exists k, m = MRequested k ARoot.
+  Proof.
+    induction rs as [|r rs IH]; intros acc ib Hib d l m; cbn.
+    - rewrite app_nil_r. apply Hib.
+    - intros Hl Hm.
+      destruct (IH (acc ++ [r]) (push_inbox (push_inbox ib r (MRequested KB ARoot)) r (MRequested KS ARoot))) with (d := d) (l := l) (m := m) as [H1 H2]; try done.
+      + intros d2 l2 m2. rewrite !lookup_push_inbox. destruct (decide (d2 = r)) as [->|Hne].
+        * rewrite decide_True by done. intros [= <-] Hin.
+          rewrite !elem_of_app, !elem_of_list_singleton in Hin. split; [apply elem_of_app; right; apply elem_of_list_here|].
+          destruct Hin as [[Hin | ->] | ->]; eauto.
+          destruct (ib !! r) eqn:E; cbn in Hin; [by eapply Hib|by apply elem_of_nil in Hin].
+        * intros Hl2 Hm2. destruct (Hib d2 l2 m2 Hl2 Hm2). split; [apply elem_of_app; by left|done].
+      + split; [|done]. by rewrite <- app_assoc in H1.
+  Qed.
+
   Lemma init_inbox_msgs rs d l m :
     init_inbox rs !! d = Some l -> m ∈ l -> d ∈ rs /\ exists k, m = MRequested k ARoot.
   Proof.
-    unfold init_inbox.
-    assert (Hgen : forall rs ib, (forall d1 l1 m1, ib !! d1 = Some l1 -> m1 ∈ l1 -> d1 ∈ rs ++ [] /\ exists k, m1 = MRequested k ARoot) ->
-              forall d1 l1 m1, foldl (fun ib r => push_inbox (push_inbox ib r (MRequested KB ARoot)) r (MRequested KS ARoot)) ib rs !! d1 = Some l1 ->
-              m1 ∈ l1 -> d1 ∈ rs ++ [] /\ exists k, m1 = MRequested k ARoot); [|].
-    2:{ intros Hl Hm. destruct (Hgen rs ∅) with (d1 := d) (l1 := l) (m1 := m) as [H1 H2]; try done.
-        - intros d1 l1 m1. by rewrite lookup_empty.
-        - rewrite app_nil_r in H1. done. }
-    clear. intros rs. rewrite app_nil_r. revert rs.
-    assert (Hg2 : forall rs acc ib, (forall d1 l1 m1, ib !! d1 = Some l1 -> m1 ∈ l1 -> d1 ∈ acc /\ exists k, m1 = MRequested k ARoot) ->
-              forall d1 l1 m1, foldl (fun ib r => push_inbox (push_inbox ib r (MRequested KB ARoot)) r (MRequested KS ARoot)) ib rs !! d1 = Some l1 ->
-              m1 ∈ l1 -> d1 ∈ acc ++ rs /\ exists k, m1 = MRequested k ARoot).
-    { induction rs as [|r rs IH]; intros acc ib Hib d1 l1 m1; cbn.
-      - rewrite app_nil_r. apply Hib.
-      - intros Hl Hm. destruct (IH (acc ++ [r]) (push_inbox (push_inbox ib r (MRequested KB ARoot)) r (MRequested KS ARoot))) with (d1 := d1) (l1 := l1) (m1 := m1) as [H1 H2]; try done.
-        + intros d2 l2 m2. rewrite !lookup_push_inbox. destruct (decide (d2 = r)) as [->|Hne].
-          * rewrite decide_True by done. intros [= <-] Hin.
-            rewrite !elem_of_app, !elem_of_list_singleton in Hin. split; [apply elem_of_app; right; apply elem_of_list_here|].
-            destruct Hin as [[Hin|->]|->]; eauto.
-            destruct (ib !! r) eqn:E; cbn in Hin; [by eapply Hib|by apply elem_of_nil in Hin].
-          * intros Hl2 Hm2. destruct (Hib d2 l2 m2 Hl2 Hm2). split; [apply elem_of_app; by left|done].
-        + split; [|done]. by rewrite <- app_assoc in H1. }
-    intros rs ib Hib d1 l1 m1 Hl Hm. by apply (Hg2 rs [] ib).
+    unfold init_inbox. intros Hl Hm.
+    destruct (init_inbox_msgs_gen rs [] ∅) with (d := d) (l := l) (m := m) as [H1 H2]; try done.
   Qed.
 
   Lemma talk_inv_init : talk_inv (init_sys g roots).
@@ -66,5 +65,133 @@ Section svc.
     - intros t a Ha Hk. apply (init_actor_lookup g roots) in Ha as (kk & deps & _ & ->). cbn. split; [set_solver|].
       intros x Hx Hn. exfalso. apply Hn. by apply elem_of_list_to_set.
     - split; [set_solver|]. intros r Hr Hn. exfalso. apply Hn. by apply elem_of_list_to_set.
+  Qed.
+
+  Lemma dep_wf s t a d : wf s -> actors s !! t = Some a -> dep t d -> d ∈ a_deps a.
+  Proof.
+    intros Hwf Ha (kt & deps & Hg & Hd). destruct (Hwf t a Ha) as [_ Hg'].
+    assert (Heq := eq_trans (eq_sym Hg) Hg'). by injection Heq as -> ->.
+  Qed.
+
+  Lemma msg_in_root_step s s' dst m :
+    inbox s' = inbox s -> (forall o, o ∈ rootq s' -> o ∈ rootq s) -> msg_in s' dst m -> msg_in s dst m.
+  Proof. intros Hib Hrq. destruct dst as [|d]; cbn; [apply Hrq|by rewrite Hib]. Qed.
+
+  Lemma talk_inv_step w s s' : wf s -> talk_inv s -> step_inv fx w s s' -> talk_inv s'.
+  Proof.
+    intros Hwf Hti [t a e ok a' os ob Ha Hst Hact Hh Hmsg Herr Hm _ _ _ _ (Hph & HuB & HuS & Hsv & _)
+                   |Hact Hib Hh _ Hrq Hrs|ts _ Hact Hib Hh Hrq _ (Hph & HuB & HuS & Hsv & _) _].
+    - destruct (Hwf t a Ha) as [Hid Hg].
+      destruct (step_same_id _ _ _ _ _ _ _ Hst) as (Hi' & Hk' & Hd').
+      assert (Hreqs' : forall k r, r ∈ reqs a' k -> req_ok t r).
+      { intros k r Hr. destruct (step_reqs_grow _ _ _ _ _ _ _ Hst k r Hr) as [Hold | ->].
+        - by eapply (ti_reqs _ Hti).
+        - eapply (ti_req _ Hti). by apply Hm. }
+      assert (Hacts' : a_kind a = AAggregate ->
+                (forall x, x ∈ actS a' -> x ∈ a_deps a /\ svc_behind x) /\
+                (forall x, x ∈ a_deps a -> x ∉ unavS a' -> svc_behind x -> x ∈ actS a')).
+      { intros Hagg. destruct (ti_acts _ Hti t a Ha Hagg) as [IH1 IH2]. split.
+        - intros x Hx. destruct (step_acts_grow _ _ _ _ _ _ _ Hst KS x Hx) as [Hold | [_ ->]]; [by apply IH1|].
+          specialize (Hm _ eq_refl). split.
+          + eapply dep_wf; [done|done|]. by apply (ti_ok _ Hti _ _ _ _ Hm).
+          + by apply (ti_act _ Hti _ _ _ Hm).
+        - intros x Hx Hn Hsb. destruct (decide (x ∈ unavS a)) as [Hin|Hnin].
+          + destruct (step_unav_shrink _ _ _ _ _ _ _ Hst KS x Hin Hn) as [act ->].
+            specialize (Hm _ eq_refl). assert (act = true) as -> by (by apply (ti_act _ Hti _ _ _ Hm)).
+            by eapply (step_acts_add _ _ _ _ _ _ _ Hst KS x).
+          + eapply (step_acts_mono _ _ _ _ _ _ _ Hst KS). by apply IH2. }
+      split.
+      + intros d k r Hin. destruct (Hmsg _ _ Hin) as [Hold|Hnew]; [by eapply (ti_req _ Hti)|].
+        destruct (step_out_req _ _ _ _ _ _ _ Hst _ _ _ Hnew) as (-> & d0 & [= <-] & Hd0).
+        rewrite Hid. cbn. by exists (a_kind a), (a_deps a).
+      + intros d a0 k r Ha0 Hr. rewrite Hact in Ha0. destruct (decide (d = t)) as [->|Hne].
+        * rewrite lookup_insert in Ha0. injection Ha0 as <-. by eapply Hreqs'.
+        * rewrite lookup_insert_ne in Ha0 by done. by eapply (ti_reqs _ Hti).
+      + intros dst k d act Hin. destruct (Hmsg _ _ Hin) as [Hold|Hnew]; [by eapply (ti_ok _ Hti)|].
+        destruct (step_out_ok _ _ _ _ _ _ _ Hst _ _ _ _ Hnew) as [-> _]. rewrite Hid.
+        destruct (step_out_ok_dest _ _ _ _ _ _ _ Hst _ _ _ _ Hnew) as [Hr | [k' ->]]; [by eapply Hreqs'|].
+        eapply (ti_req _ Hti). by apply Hm.
+      + intros dst d act Hin. destruct (Hmsg _ _ Hin) as [Hold|Hnew]; [by eapply (ti_act _ Hti)|].
+        destruct (step_out_ok _ _ _ _ _ _ _ Hst _ _ _ _ Hnew) as [-> Hj]. rewrite Hid. unfold ok_just in Hj.
+        destruct (a_kind a) eqn:Hk.
+        * subst act. split; [done|]. intros Hsb. inversion Hsb as [? ? Hg2|? ? ? Hg2]; subst;
+            assert (Heq := eq_trans (eq_sym Hg) Hg2); done.
+        * destruct Hj as [-> _]. split; [|done]. intros _. by eapply sb_service.
+        * destruct Hj as [Hemp ->]. destruct (Hacts' eq_refl) as [H1 H2]. cbn in Hemp. rewrite negb_true_iff, set_empty_false. cbn. split.
+          -- intros Hne. apply set_choose_L in Hne as [x Hx]. destruct (H1 x Hx) as [Hxd Hsb].
+             by eapply (sb_aggregate t (a_deps a) x).
+          -- intros Hsb Heq. inversion Hsb as [? ? Hg2|? deps x Hg2 Hx Hsx]; subst;
+               assert (Heq2 := eq_trans (eq_sym Hg) Hg2); [done|]. injection Heq2 as <-.
+             assert (x ∈ actS a') as Hin' by (apply H2; [done|rewrite Hemp; set_solver|done]).
+             rewrite Heq in Hin'. set_solver.
+      + intros t0 a0 Ha0 Hk0. rewrite Hact in Ha0. destruct (decide (t0 = t)) as [->|Hne].
+        * rewrite lookup_insert in Ha0. injection Ha0 as <-. rewrite Hk' in Hk0. rewrite Hd'. by apply Hacts'.
+        * rewrite lookup_insert_ne in Ha0 by done. by eapply (ti_acts _ Hti).
+      + rewrite Hsv, HuS. apply (ti_root _ Hti).
+    - assert (Hmi : forall dst m, msg_in s' dst m -> msg_in s dst m) by (intros; by eapply msg_in_root_step).
+      split.
+      + intros d k r Hin. eapply (ti_req _ Hti). by apply Hmi.
+      + intros d a0 k r Ha0. rewrite Hact in Ha0. by eapply (ti_reqs _ Hti).
+      + intros dst k d act Hin. eapply (ti_ok _ Hti). by apply Hmi.
+      + intros dst d act Hin. eapply (ti_act _ Hti). by apply Hmi.
+      + intros t0 a0 Ha0. rewrite Hact in Ha0. by eapply (ti_acts _ Hti).
+      + destruct (ti_root _ Hti) as [R1 R2].
+        destruct Hrs as [o rest Hp Hq Hq' _ Hp' (H1&H2&H3) _ _
+                        |t rest _ Hp Hq Hq' Hp' (H1&H2&H3) _ _
+                        |t act rest _ Hp Hq Hq' Hp' H1 H2 H3 _ _
+                        |t act rest _ Hp Hq Hq' Hp' H1 H2 H3 _ _
+                        |_ Hp HB HS Hsv0 Hp' _ (H1&H2&H3) _ _
+                        |_ Hp HB HS Hsv0 Hp' _ (H1&H2&H3) _ _
+                        |_ Hp' _ (H1&H2&H3) _ _
+                        |_ _ Hp' _ (H1&H2&H3) _ _
+                        |st Hp _ Hp' _ (H1&H2&H3) _ _]; try (rewrite H3, H2; by split).
+        assert (Hin : msg_in s ARoot (MOk KS t act)) by (cbn; rewrite Hq; apply elem_of_list_here).
+        pose proof (ti_ok _ Hti _ _ _ _ Hin) as Hroot. cbn in Hroot.
+        pose proof (ti_act _ Hti _ _ _ Hin) as Hact'.
+        rewrite H3, H2. split.
+        * intros r Hr. destruct act.
+          -- apply elem_of_union in Hr as [Hr|Hr]; [by apply R1|]. apply elem_of_singleton in Hr as ->.
+             split; [done|by apply Hact'].
+          -- by apply R1.
+        * intros r Hr Hn Hsb. destruct (decide (r = t)) as [->|Hne].
+          -- assert (act = true) as -> by (by apply Hact'). set_solver.
+          -- assert (r ∈ r_svc s) by (apply R2; [done|set_solver|done]). destruct act; set_solver.
+    - assert (Hmi : forall dst m, msg_in s' dst m -> msg_in s dst m).
+      { intros [|d] m; cbn; [by rewrite Hrq|by rewrite Hib]. }
+      split.
+      + intros d k r Hin. eapply (ti_req _ Hti). by apply Hmi.
+      + intros d a0 k r Ha0. rewrite Hact in Ha0. by eapply (ti_reqs _ Hti).
+      + intros dst k d act Hin. eapply (ti_ok _ Hti). by apply Hmi.
+      + intros dst d act Hin. eapply (ti_act _ Hti). by apply Hmi.
+      + intros t0 a0 Ha0. rewrite Hact in Ha0. by eapply (ti_acts _ Hti).
+      + rewrite Hsv, HuS. apply (ti_root _ Hti).
+  Qed.
+
+  Lemma talk_inv_reachable w s : reachable fx w g roots s -> talk_inv s.
+  Proof.
+    apply reachable_ind; [apply talk_inv_init|]. intros s0 l s1 Hr Hti He.
+    eapply talk_inv_step; [by eapply wf_reachable|done|by eapply exec_inv].
+  Qed.
+
+  (* C11: when the one-shot loop has received every acknowledgement, zinoma stays alive exactly when a requested
+     target is, or aggregates, a service *)
+  Theorem keepalive_iff w s :
+    reachable fx w g roots s -> r_unavS s = ∅ ->
+    (r_svc s <> ∅ <-> exists r, r ∈ roots /\ svc_behind r).
+  Proof.
+    intros Hr HS. destruct (ti_root _ (talk_inv_reachable w s Hr)) as [R1 R2]. split.
+    - intros Hne. apply set_choose_L in Hne as [r Hin]. exists r. by apply R1.
+    - intros (r & Hin & Hsb) Heq. assert (r ∈ r_svc s) by (apply R2; [done|rewrite HS; set_solver|done]).
+      rewrite Heq in H. set_solver.
+  Qed.
+
+  (* C20: an aggregate has a service behind it exactly when one of its dependencies has *)
+  Theorem svc_behind_aggregate d deps :
+    g !! d = Some (AAggregate, deps) -> (svc_behind d <-> exists x, x ∈ deps /\ svc_behind x).
+  Proof.
+    intros Hg. split.
+    - intros Hsb. inversion Hsb as [? ? Hg2|? deps2 x Hg2 Hx Hsx]; subst;
+        assert (Heq := eq_trans (eq_sym Hg) Hg2); [done|]. injection Heq as <-. eauto.
+    - intros (x & Hx & Hsb). by eapply sb_aggregate.
   Qed.
 End svc.
